@@ -149,6 +149,43 @@ macro_rules! transparent_carrier {
 transparent_carrier!(Box);
 transparent_carrier!(Arc);
 
+macro_rules! str_carrier {
+    ($t:ty) => {
+        impl Carrier for $t {
+            fn ty(rng: &mut Rng) -> Ty {
+                String::ty(rng)
+            }
+            fn gen_val(rng: &mut Rng, ty: &Ty, pos: Pos) -> Val {
+                String::gen_val(rng, ty, pos)
+            }
+            fn from_val(v: &Val) -> Option<Self> {
+                String::from_val(v).map(|s| <$t>::from(s.as_str()))
+            }
+            fn same(&self, o: &Self) -> bool {
+                **self == **o
+            }
+        }
+    };
+}
+str_carrier!(Box<str>);
+str_carrier!(Arc<str>);
+
+impl Carrier for secrecy_10::SecretSlice<i64> {
+    fn ty(rng: &mut Rng) -> Ty {
+        <Vec<i64>>::ty(rng)
+    }
+    fn gen_val(rng: &mut Rng, ty: &Ty, pos: Pos) -> Val {
+        <Vec<i64>>::gen_val(rng, ty, pos)
+    }
+    fn from_val(v: &Val) -> Option<Self> {
+        <Vec<i64>>::from_val(v).map(secrecy_10::SecretSlice::from)
+    }
+    fn same(&self, o: &Self) -> bool {
+        use secrecy_10::ExposeSecret;
+        self.expose_secret() == o.expose_secret()
+    }
+}
+
 fn elems<T: Carrier>(rng: &mut Rng, e: &Ty, n: usize) -> Vec<Val> {
     (0..n).map(|_| T::gen_val(rng, e, Pos::Elem)).collect()
 }
@@ -189,25 +226,55 @@ impl<T: Carrier> Carrier for Vec<T> {
     }
 }
 
-/// Order and de-duplicate element embeddings the way `BTreeSet<i32>` / `BTreeSet<String>` iterate.
-fn sort_key(v: &Val) -> (i64, Vec<u8>) {
-    match v {
-        Val::Int(x) => (*x as i64, vec![]),
-        Val::BigInt(x) => (*x, vec![]),
-        Val::Ascii(b) | Val::Text(b) => (0, b.clone()),
-        _ => (0, vec![]),
+/// `CqlTimeuuid`'s order, re-implemented from its documentation: the timestamp (time_hi without the version
+/// nibble, time_mid, time_low), then the low 8 bytes as signed bytes.
+fn timeuuid_key(b: &[u8; 16]) -> (u64, [i8; 8]) {
+    let msb = u64::from_be_bytes([b[6] & 0x0f, b[7], b[4], b[5], b[0], b[1], b[2], b[3]]);
+    let mut low = [0i8; 8];
+    for i in 0..8 {
+        low[i] = b[8 + i] as i8;
+    }
+    (msb, low)
+}
+
+/// The `Ord` of the Rust key types, on their embeddings (independent of the Lean model's `rvCmp`).
+pub fn val_cmp(a: &Val, b: &Val) -> std::cmp::Ordering {
+    use std::cmp::Ordering::*;
+    match (a, b) {
+        (Val::TinyInt(x), Val::TinyInt(y)) => x.cmp(y),
+        (Val::SmallInt(x), Val::SmallInt(y)) => x.cmp(y),
+        (Val::Int(x), Val::Int(y)) => x.cmp(y),
+        (Val::BigInt(x), Val::BigInt(y)) | (Val::Counter(x), Val::Counter(y)) | (Val::Timestamp(x), Val::Timestamp(y)) => x.cmp(y),
+        (Val::Boolean(x), Val::Boolean(y)) => x.cmp(y),
+        (Val::Ascii(x) | Val::Text(x), Val::Ascii(y) | Val::Text(y)) | (Val::Blob(x), Val::Blob(y)) => x.cmp(y),
+        (Val::Uuid(x), Val::Uuid(y)) => x.cmp(y),
+        (Val::Timeuuid(x), Val::Timeuuid(y)) => timeuuid_key(x).cmp(&timeuuid_key(y)),
+        (Val::Inet(x), Val::Inet(y)) => (x.len(), x).cmp(&(y.len(), y)),
+        (Val::Null, Val::Null) => Equal,
+        (Val::Null, _) => Less,
+        (_, Val::Null) => Greater,
+        (Val::List(x) | Val::Set(x) | Val::Vector(x) | Val::Tuple(x), Val::List(y) | Val::Set(y) | Val::Vector(y) | Val::Tuple(y)) => {
+            for (p, q) in x.iter().zip(y) {
+                let c = val_cmp(p, q);
+                if c != Equal {
+                    return c;
+                }
+            }
+            x.len().cmp(&y.len())
+        }
+        _ => Equal,
     }
 }
 
 fn sorted_unique(mut vs: Vec<Val>) -> Vec<Val> {
-    vs.sort_by_key(sort_key);
-    vs.dedup_by_key(|v| sort_key(v));
+    vs.sort_by(val_cmp);
+    vs.dedup_by(|a, b| val_cmp(a, b) == std::cmp::Ordering::Equal);
     vs
 }
 
 fn sorted_unique_pairs(mut kvs: Vec<(Val, Val)>) -> Vec<(Val, Val)> {
-    kvs.sort_by_key(|kv| sort_key(&kv.0));
-    kvs.dedup_by_key(|kv| sort_key(&kv.0));
+    kvs.sort_by(|a, b| val_cmp(&a.0, &b.0));
+    kvs.dedup_by(|a, b| val_cmp(&a.0, &b.0) == std::cmp::Ordering::Equal);
     kvs
 }
 
@@ -306,6 +373,8 @@ macro_rules! tuple_carrier {
 tuple_carrier!(A 0);
 tuple_carrier!(A 0, B 1);
 tuple_carrier!(A 0, B 1, C 2);
+tuple_carrier!(A 0, B 1, C 2, D 3);
+tuple_carrier!(A 0, B 1, C 2, D 3, E 4, F 5, G 6, H 7, I 8, J 9, K 10, L 11, M 12, N 13, O 14, P 15);
 
 // ------------------------------------------------------------------------------------------------
 
@@ -441,11 +510,11 @@ fn canon_hashed(name: &str, v: Val) -> Val {
     }
     match v {
         Val::Set(mut vs) => {
-            vs.sort_by_key(sort_key);
+            vs.sort_by(val_cmp);
             Val::Set(vs)
         }
         Val::Map(mut kvs) => {
-            kvs.sort_by_key(|kv| sort_key(&kv.0));
+            kvs.sort_by(|a, b| val_cmp(&a.0, &b.0));
             Val::Map(kvs)
         }
         v => v,
@@ -547,16 +616,78 @@ carriers!(
         "opt_bigint04" => Option<num_bigint_04::BigInt>, "bmap_bigint04_bigdecimal" => BTreeMap<num_bigint_04::BigInt, bigdecimal_04::BigDecimal>,
         "tup2_timedate_opt_timetime" => (time_03::Date, Option<time_03::Time>), "mempty_chronotime" => MaybeEmpty<chrono_04::NaiveTime>,
         "secret08string" => secrecy_08::Secret<String>, "secret10string" => secrecy_10::SecretString,
-        "secretbox10i64" => secrecy_10::SecretBox<i64>,
+        "secretbox10i64" => secrecy_10::SecretBox<i64>, "secretslice10_i64" => secrecy_10::SecretSlice<i64>,
+        // owned string smart pointers with their own decode code (deserialize/value.rs:1926-1954)
+        "boxstr" => Box<str>, "arcstr" => Arc<str>,
+        // macro-generated tuple arities beyond 3
+        "tup4_i32_string_bool_i64" => (i32, String, bool, i64),
+        "tup16_i32_i64_bool_string_i8_i16_f32_f64_blob_uuid_opt_i32_date_time_timestamp_counter_inet" =>
+            (i32, i64, bool, String, i8, i16, f32, f64, Vec<u8>, uuid::Uuid, Option<i32>, CqlDate, CqlTime, CqlTimestamp, Counter, IpAddr),
+        // every key type whose order the model has (`rvCmp`)
+        "bset_i8" => BTreeSet<i8>, "bset_i16" => BTreeSet<i16>, "bset_i64" => BTreeSet<i64>, "bset_bool" => BTreeSet<bool>,
+        "bset_blob" => BTreeSet<Vec<u8>>, "bset_uuid" => BTreeSet<uuid::Uuid>, "bset_timeuuid" => BTreeSet<CqlTimeuuid>,
+        "bset_inet" => BTreeSet<IpAddr>, "bset_counter" => BTreeSet<Counter>, "bset_timestamp" => BTreeSet<CqlTimestamp>,
+        "bset_opt_i32" => BTreeSet<Option<i32>>, "bset_vec_i32" => BTreeSet<Vec<i32>>, "bset_tup2_i32_string" => BTreeSet<(i32, String)>,
+        "bmap_uuid_i32" => BTreeMap<uuid::Uuid, i32>, "bmap_i64_string" => BTreeMap<i64, String>,
+        "bmap_blob_opt_i64" => BTreeMap<Vec<u8>, Option<i64>>, "bmap_timeuuid_i32" => BTreeMap<CqlTimeuuid, i32>,
+        "bmap_inet_bool" => BTreeMap<IpAddr, bool>,
     ],
     hashed: [
         "hset_i32" => HashSet<i32>, "hset_string" => HashSet<String>, "hmap_string_i64" => HashMap<String, i64>,
         "hmap_i32_opt_string" => HashMap<i32, Option<String>>,
+        "hset_bool" => HashSet<bool>, "hset_i64" => HashSet<i64>, "hset_uuid" => HashSet<uuid::Uuid>,
+        "hset_timeuuid" => HashSet<CqlTimeuuid>, "hset_inet" => HashSet<IpAddr>, "hmap_blob_i32" => HashMap<Vec<u8>, i32>,
     ]
 );
 
 /// carriers of external crates: their range limits are not modelled (malformed input is oracle-only for them)
 const EXTERNAL: &[&str] = &["chrono", "timedate", "timeoffset", "timetime", "bigint", "bigdecimal", "secret"];
+
+/// carriers whose `DeserializeValue` impl borrows from the frame (their own copies of the decode code:
+/// deserialize/value.rs:376, 423, 460, 509, 1905); `cowbytes` (`Cow<[u8]>`) is decode-only
+const BORROWED: &[&str] = &["strref", "cowstr", "bytesref", "varintborrowed", "decimalborrowed"];
+
+fn borrowed_decode(name: &str, ct: &ColumnType<'static>, body: Option<&[u8]>) -> Option<Option<Result<Val, String>>> {
+    macro_rules! bdec {
+        ($t:ty, |$x:ident| $conv:expr) => {{
+            if <$t as DeserializeValue>::type_check(ct).is_err() {
+                None
+            } else {
+                let bytes = body.map(Bytes::copy_from_slice);
+                let slice = bytes.as_ref().map(FrameSlice::new);
+                Some(<$t as DeserializeValue>::deserialize(ct, slice).map(|$x| $conv).map_err(|e| de_kind(&e)))
+            }
+        }};
+    }
+    Some(match name {
+        "strref" => bdec!(&str, |x| Val::Text(x.as_bytes().to_vec())),
+        "cowstr" => bdec!(Cow<str>, |x| Val::Text(x.as_bytes().to_vec())),
+        "bytesref" => bdec!(&[u8], |x| Val::Blob(x.to_vec())),
+        "cowbytes" => bdec!(Cow<[u8]>, |x| Val::Blob(x.to_vec())),
+        "varintborrowed" => bdec!(CqlVarintBorrowed, |x| Val::Varint(x.as_signed_bytes_be_slice().to_vec())),
+        "decimalborrowed" => bdec!(CqlDecimalBorrowed, |x| {
+            let (b, s) = x.as_signed_be_bytes_slice_and_exponent();
+            Val::Decimal(s, b.to_vec())
+        }),
+        _ => return None,
+    })
+}
+
+fn show_typed(r: &Option<Result<Val, String>>) -> String {
+    match r {
+        None => "no-typecheck".to_owned(),
+        Some(Ok(v)) => val_str(v),
+        Some(Err(k)) => format!("err {}", k),
+    }
+}
+
+fn content_of(v: &Val) -> Option<(i32, Vec<u8>)> {
+    match v {
+        Val::Ascii(b) | Val::Text(b) | Val::Blob(b) | Val::Varint(b) => Some((0, b.clone())),
+        Val::Decimal(s, b) => Some((*s, b.clone())),
+        _ => None,
+    }
+}
 
 const SER_ONLY: &[&str] = &["strref", "bytesref", "cowstr", "varintborrowed", "decimalborrowed", "munset_i32", "vec_munset_i32", "tup2_munset_string_opt_i64", "bmap_i32_munset_string", "slice_i32", "slice_opt_string", "slice_vec_i32", "bytesarr4", "bytesarr16", "dynser_i32", "dynser_vec_string"];
 
@@ -642,7 +773,7 @@ fn gen_ser_only(name: &str, rng: &mut Rng) -> (Ty, Val) {
     }
     match name {
         "strref" | "cowstr" => g::<String>(rng),
-        "bytesref" => g::<Vec<u8>>(rng),
+        "bytesref" | "cowbytes" => g::<Vec<u8>>(rng),
         "varintborrowed" => g::<CqlVarint>(rng),
         "decimalborrowed" => g::<CqlDecimal>(rng),
         "munset_i32" => g::<MaybeUnset<i32>>(rng),
@@ -660,15 +791,44 @@ fn gen_ser_only(name: &str, rng: &mut Rng) -> (Ty, Val) {
 }
 
 pub fn run_tdec(name: &str, ty: &Ty, body: Option<Vec<u8>>, ctx: &mut Ctx) -> String {
-    run_tdec_registered(name, ty, body, ctx).unwrap_or("bad-case".to_owned())
+    let out = match borrowed_decode(name, &to_column_type(ty), body.as_deref()) {
+        Some(r) => show_typed(&r),
+        None => run_tdec_registered(name, ty, body.clone(), ctx).unwrap_or("bad-case".to_owned()),
+    };
+    // model-independent: no string carrier may hand out non-ASCII text read from an `ascii` column
+    if *ty == Ty::Native(NativeType::Ascii) && body.as_ref().is_some_and(|b| !b.is_ascii()) && out.starts_with("text ") {
+        ctx.fail(format!("ascii: carrier {} accepted non-ASCII bytes from an ascii column", name));
+    }
+    out
 }
 
 pub fn run_carrier(name: &str, ty: &Ty, val: &Val, ctx: &mut Ctx) -> String {
-    run_registered(name, ty, val, ctx).or_else(|| run_ser_only(name, ty, val, ctx)).unwrap_or("bad-case".to_owned())
+    let out = run_registered(name, ty, val, ctx).or_else(|| run_ser_only(name, ty, val, ctx)).unwrap_or("bad-case".to_owned());
+    if !BORROWED.contains(&name) {
+        return out;
+    }
+    // two-way borrowed carriers: their own typed decode of the bytes just written
+    let Some(cell) = unhex(&out).filter(|_| !out.starts_with("err") && out != "bad-case") else { return out };
+    let body = split_cell(&cell, ctx);
+    let dec = borrowed_decode(name, &to_column_type(ty), body.as_deref()).unwrap();
+    if classify(ty, val, true) == Dom::In {
+        match &dec {
+            None => {}
+            Some(Ok(v)) if content_of(v) == content_of(val) => {}
+            other => ctx.fail(format!("roundtrip: the borrowed carrier decodes its own encoding to {}", show_typed(other))),
+        }
+    }
+    format!("{} => {}", out, show_typed(&dec))
 }
 
 fn kind_of(name: &str) -> &'static str {
-    if HASHED.contains(&name) { "carrierset" } else if SER_ONLY.contains(&name) { "carrierser" } else { "carrier" }
+    if HASHED.contains(&name) {
+        "carrierset"
+    } else if SER_ONLY.contains(&name) && !BORROWED.contains(&name) {
+        "carrierser"
+    } else {
+        "carrier"
+    }
 }
 
 pub fn generate(rng: &mut Rng, tier: Tier, emit: &mut dyn FnMut(String)) {
@@ -703,12 +863,16 @@ pub fn generate(rng: &mut Rng, tier: Tier, emit: &mut dyn FnMut(String)) {
     // malformed / mutated cell bodies through the typed decoders (model-independent: no panic, idempotence)
     for _ in 0..per * 12 {
         let all: Vec<&str> = FULL.iter().chain(HASHED).copied().collect();
-        let name = if rng.chance(1, 3) { *rng.pick(&["bset_i32", "bset_string", "bmap_i32_string", "bmap_string_vec_i32",
-            "hset_i32", "hset_string", "hmap_string_i64", "hmap_i32_opt_string"]) } else { *rng.pick(&all) };
+        let setmap: Vec<&str> = all.iter().copied().filter(|n| n.contains("set_") || n.contains("map_")).collect();
+        let name = match rng.below(6) {
+            0 | 1 => *rng.pick(&setmap),
+            2 => *rng.pick(&["strref", "cowstr", "bytesref", "cowbytes", "varintborrowed", "decimalborrowed", "boxstr", "arcstr"]),
+            _ => *rng.pick(&all),
+        };
         if EXTERNAL.iter().any(|e| name.contains(e)) {
             continue;
         }
-        let Some((t, v)) = gen_registered(name, rng) else { continue };
+        let (t, v) = gen_registered(name, rng).unwrap_or_else(|| gen_ser_only(name, rng));
         // set / map bodies also in non-canonical form: unsorted, with duplicate elements / keys
         let v = match v {
             Val::Set(mut vs) if rng.bool() && !vs.is_empty() => {
